@@ -65,9 +65,10 @@ def tlineOk (l : TLine) : Bool :=
   | 2 => !l.content.isEmpty && plain l.content && !lastP isSpace l.content
   | _ => false
 
-/-- a text block: starts with a paragraph line and does not end in a blank-line marker -/
-def blockOk (ls : List TLine) : Bool :=
-  ls.all tlineOk && (match ls.head? with | some l => l.kind == 0 | none => true) &&
+/-- a text block: starts with a paragraph line (or, with `verbFirst`, a verbatim line) and does not
+end in a blank-line marker -/
+def blockOk (ls : List TLine) (verbFirst : Bool := false) : Bool :=
+  ls.all tlineOk && (match ls.head? with | some l => l.kind == 0 || (verbFirst && l.kind == 2) | none => true) &&
   (match ls.getLast? with | some l => l.kind != 1 | none => true)
 
 def normLabel (s : Str) : Str :=
@@ -91,14 +92,14 @@ def labelOk (f : Field) : Bool :=
 
 def singleSpaced (s : Str) : Bool := !s.isEmpty && plain s && trimmed s && (splitChar ' ' s).all (!·.isEmpty) && (splitWs s).length == (splitChar ' ' s).length
 
-def fieldOk (f : Field) : Bool :=
+def fieldOk (f : Field) (verbFirst : Bool := false) : Bool :=
   labelOk f && plain f.first && trimmed f.first &&
   (match f.kind with
    | 0 => !f.first.isEmpty && f.conts.isEmpty
    | 1 => singleSpaced f.first && f.conts.all (fun l => l.kind == 0 && singleSpaced l.content && !headP (· == '.') l.content)
    | 2 => singleSpaced f.first && f.conts.all (fun l => l.kind == 0 && singleSpaced l.content && !headP (· == '.') l.content)
-   | 3 => !f.first.isEmpty && blockOk f.conts
-   | 4 => blockOk f.conts && (!f.first.isEmpty || !f.conts.isEmpty)
+   | 3 => !f.first.isEmpty && blockOk f.conts verbFirst
+   | 4 => blockOk f.conts verbFirst && (!f.first.isEmpty || !f.conts.isEmpty)
    | 5 => !f.first.isEmpty && f.conts.all (fun l => l.kind == 0 && tlineOk l)
    | _ => false)
 
@@ -115,8 +116,8 @@ def paraKind (p : Para) : Option Kind :=
   else if hasLabel p "license" then some .license
   else none
 
-def paraOk (p : Para) : Bool :=
-  !p.isEmpty && p.all fieldOk && distinct p &&
+def paraOk (p : Para) (verbFirst : Bool := false) : Bool :=
+  !p.isEmpty && p.all (fieldOk · verbFirst) && distinct p &&
   (match paraKind p with
    | some .header => p.all fun f => !["files"].contains (String.ofList (normLabel f.label))
    | some .files => hasLabel p "copyright" && hasLabel p "license" &&
@@ -124,8 +125,10 @@ def paraOk (p : Para) : Bool :=
    | some .license => p.all fun f => ["license", "comment"].contains (String.ofList (normLabel f.label)) || f.kind == 5
    | _ => false)
 
-def wf (d : Doc) : Bool :=
-  !d.paras.isEmpty && d.paras.all paraOk &&
+/-- `verbFirst`: a text block may also start with a verbatim line (the first parse strips its
+indentation, so the typed-value clauses of C09 exclude it; the fixpoint clauses of C13 do not) -/
+def wf (d : Doc) (verbFirst : Bool := false) : Bool :=
+  !d.paras.isEmpty && d.paras.all (paraOk · verbFirst) &&
   (match d.paras.head? with | some p => paraKind p == some .header | none => false) &&
   d.paras.tail.all (fun p => paraKind p != some .header) &&
   d.seps.length == d.paras.length && d.seps.all (fun n => n ≥ 1) &&
